@@ -56,9 +56,16 @@ def run(tier, seed):
         # thermal-time crops read the temperatures a second time (crop calendar): a date-like index that is not the Date column
         for sc in fulls[1:3]:
             add(sc, [(perms[0], extras[0], "datetime_shifted", pads[0]), (perms[3], extras[2], "datetime_noon", pads[1]), (perms[0], extras[0], "datetime_other", pads[0])])
-    return equivbase.equiv_check(PROP, tier, seed, jobs, pairs, level="exploration",
+    # traced runs: on every simulated day the four values the step works with are those of the user's record of that date (Trace!DayBeginWeatherC)
+    from checks import tracebase
+    hot = [{"from": f"{y}/06/15", "to": f"{y}/07/25", "Tmax": 43.0, "Tmin": 31.5} for y in (2001, 2002, 2003)]
+    traced = [S("MaizeGDD", "Loam", seed=seed + 40, seasons=3, regime="hot", events=hot), S("WheatGDD", "SandyLoam", seed=seed + 41, seasons=2, regime="warm", off_season=True, lead=15),
+              S("Tomato", "Clay", seed=seed + 42, seasons=2, events=hot)]
+    rc1 = tracebase.trace_check(PROP, tier, seed, traced, [], pairwise=(tier == "thorough"))
+    rc2 = equivbase.equiv_check(PROP, tier, seed, jobs, pairs, level="exploration", merge=True,
                                  rule_text="C15: weather-table transformations (column permutation x extra columns x index kind x extra rows outside the window) "
                                            "vs the canonical table, rule identity", extra={"transformation_space": len(space), "exhaustive": False})
+    return 1 if (rc1 or rc2) else 0
 
 
 def replay(path):
